@@ -76,6 +76,10 @@ def run(lines, out, args):
             def getter(self, e=int(cf[1:])):
                 raise boom(e)
             Ob = type("Ob", (), {"__conform__": property(getter)})
+        elif cf == "K":
+            # the object is a class whose METACLASS is what implements the interface (when `provided`)
+            Meta = type("Meta", (type,), {})
+            Ob = None
         elif cf == "U":
             # the object is a class whose *instances* conform: calling the unbound method with the interface alone is
             # the call machinery's TypeError, which the statement treats as "no __conform__"
@@ -106,7 +110,7 @@ def run(lines, out, args):
                     return val(int(cf[1:]))
                 raise boom(int(cf[1:]), "T" if cf[0] == "T" else cf[0] == "Q")
             Ob = type("Ob", (), {"__conform__": conform})
-        ob = Ob if cf == "U" else Ob()
+        ob = Ob if cf == "U" else Meta("Cold", (), {}) if cf == "K" else Ob()
         if cf.startswith("i"):
             ob.__conform__ = conformi
         # the interface (custom __adapt__ through interfacemethod, or the plain one)
@@ -139,20 +143,37 @@ def run(lines, out, args):
                 return ID
             I = mk()
         # provided-check is observed through a providedBy that logs
-        if prov == "1":
+        if prov == "1" and cf == "K":
+            from zope.interface import classImplements, implementedBy
+            classImplements(Meta, I)
+            implementedBy(ob)           # what adapting an instance of the class does on the way: gives the class its own descriptor
+        elif prov == "1":
             directlyProvides(ob, I)
         # hooks
         hl = []
         registry = None
         qexpected = None
         for k, t in enumerate([] if hs == "-" else hs.split(",")):
-            if t.startswith("R"):
-                # a real registry's adapter_hook; R0 = nothing registered, Rn = factory returning None, Rv<k> = factory returning a value
-                registry = AdapterRegistry()
-                if t != "R0":
+            if t.startswith("R") or t.startswith("W"):
+                # a real registry's adapter_hook; R0 = nothing registered, Rn = factory returning None, Rv<k> = factory returning a value;
+                # W..: a generation-checking registry below a base registry: asked once (answer cached), THEN the base gets the registration
+                if t.startswith("W"):
+                    from zope.interface.adapter import VerifyingAdapterRegistry
+                    target = VerifyingAdapterRegistry()
+                    registry = VerifyingAdapterRegistry((target,))
+                    hooks_list[:] = [registry.adapter_hook]
+                    try:
+                        I(ob, None)
+                    except Exception:  # noqa
+                        pass
+                    hooks_list[:] = []
+                    del log[:]
+                else:
+                    target = registry = AdapterRegistry()
+                if t[1:] != "0":
                     def factory(o, t=t):
-                        return None if t == "Rn" else val(int(t[2:]))
-                    registry.register([None], I, "", factory)
+                        return None if t[1:] == "n" else val(int(t[2:]))
+                    target.register([None], I, "", factory)
 
                 def hook(iface, o, k=k, registry=registry):
                     log.append("h%d" % k)
